@@ -68,6 +68,7 @@ type FuncVC struct {
 	uses            []string
 	probes          []Probe
 	typeByID        map[string]types.Type
+	appNames        map[string]string
 	binderDepth     int // >0 while evaluating under a quantifier: no facts may be emitted (they would mention bound variables)
 }
 
@@ -800,6 +801,8 @@ func (fv *FuncVC) backEdge(fr *Frame, b, h *ssa.BasicBlock, st *State, cond stri
 		for _, inv := range ls.Invariants {
 			t := fv.evalClause(fv.frameEnv(fr, h, st), inv)
 			fv.oblige("inv.pres", fmt.Sprintf("loop%d:%s", li.ordinal, clauseLabel(inv)), cond, t, inv.Text, inv.Pos)
+			// later clauses may rely on earlier ones at the same back edge
+			fv.ctx.Assume(Implies(cond, t))
 		}
 		if ls.Decreases != nil {
 			d := fv.evalSpec(fv.frameEnv(fr, h, st), ls.Decreases.Expr)
@@ -1187,7 +1190,18 @@ func (fv *FuncVC) zeroElems(st *State, arr string, et types.Type) {
 	cs := fv.m.Flatten(et)
 	for j, k := range fv.m.ElemKeys(et) {
 		h := fv.m.heapGet(st, k)
-		fv.m.heapSet(st, k, Store(h, arr, fmt.Sprintf("((as const (Array Int %s)) %s)", cs[j].Sort, fv.m.ZeroComp(cs[j]))))
+		z := fv.m.ZeroComp(cs[j])
+		if strings.HasPrefix(z, "lit!") {
+			// constant arrays need a value, not a symbol: use a named array that is z everywhere
+			name := "zeroarr$" + z
+			if !fv.ctx.declared[name] {
+				fv.ctx.Const(name, ArrSort(SInt, cs[j].Sort))
+				fv.ctx.axioms = append(fv.ctx.axioms, fmt.Sprintf("(forall ((i Int)) (! (= (select %s i) %s) :pattern ((select %s i))))", name, z, name))
+			}
+			fv.m.heapSet(st, k, Store(h, arr, name))
+			continue
+		}
+		fv.m.heapSet(st, k, Store(h, arr, fmt.Sprintf("((as const (Array Int %s)) %s)", cs[j].Sort, z)))
 	}
 }
 
